@@ -47,6 +47,7 @@ theorem variables_sound {reg : Reg} (hreg : RegOK reg) (fuel : Nat) (variables :
     intro env hwf h p hp
     simp only [coerceVariableValues] at h
     split at h
+    · split at h <;> cases h
     · cases h
     · rename_i o ho
       split at h
